@@ -8,7 +8,7 @@ Local Open Scope string_scope.
 
 Definition rng_graph : list fn := [
   {| fn_name := "set_global_rng"; fn_takes := true; fn_primitive := true;
-     fn_body := [SCall "lib:default_rng" ASeeded] |};
+     fn_body := [SCall "lib:default_rng" ASeeded; SGlobal "state-kept-in-module-state:_global_rng"] |};
   {| fn_name := "random_generator"; fn_takes := true; fn_primitive := true;
      fn_body := [SCall "lib:default_rng" ASeeded] |};
   {| fn_name := "FixedRNG.__init__"; fn_takes := true; fn_primitive := true;
@@ -25,7 +25,7 @@ Definition rng_graph : list fn := [
      fn_body := [] |};
   {| fn_name := "derivable_rng"; fn_takes := true; fn_primitive := true;
      fn_body := [SCall "DerivingRNG.__init__" AUnseeded; SGlobal "SeedSequence()"; SCall "DerivingRNG.__init__" ASeeded; SCall "FixedRNG.__init__" ASeeded; SCall "lib:default_rng" ASeeded] |};
-  {| fn_name := "TrainingOptions.random_generator"; fn_takes := true; fn_primitive := true;
+  {| fn_name := "TrainingOptions.random_generator"; fn_takes := true; fn_primitive := false;
      fn_body := [SCall "random_generator" ASeeded] |};
   {| fn_name := "IterativeTraining.train"; fn_takes := true; fn_primitive := false;
      fn_body := [SCall "training_loop" ASeeded] |};
@@ -135,6 +135,10 @@ Definition random_generator_plan (seed_given global_set : bool) : rg_plan :=
 Definition deriving_shape_ok : bool := true.
 (* DerivingRNG.__call__: anonymous -> spawn (stateful), identified -> make_seed(base, user) (stateless) *)
 Definition deriving_plan (has_user : bool) : derive_plan := if has_user then DeriveFromUser else SpawnNext.
+
+(* TrainingOptions.random_generator(): FreshPerCall = every call builds a generator from the seed alone, nothing is kept on
+   the options object; Memoised = some method of TrainingOptions keeps state on the object *)
+Definition training_options_plan : opt_plan := FreshPerCall.
 
 Definition stateless_rankers : list string := ["RandomSelector"; "SoftmaxRanker"; "StochasticTopNRanker"].
 Definition fanout_loops : list (string * join_kind) := [("_train_update_fanout", JScatter); ("_train_implicit_cholesky_fanout", JScatter); ("_sim_blocks", JConcat)].
